@@ -199,7 +199,7 @@ def check(ck):
         code = site.code()
         ck.require(code is not None, "C02.5", "%s: Fault #%d code" % (q.fn(fi), n5), "integer literal %s" % code,
                    "error code is not an integer literal: %s" % (dump(code_e) if code_e is not None else "default"), q.loc(fi, n))
-        ck.require(msg_e is not None and c05.is_string_expr(msg_e), "C02.5", "%s: Fault #%d message" % (q.fn(fi), n5),
+        ck.require(msg_e is not None and (c05.is_string_expr(msg_e) or c05.is_string_term(site.origin("message", 1))), "C02.5", "%s: Fault #%d message" % (q.fn(fi), n5),
                    "string-typed message", "error message is not a string-typed expression: %s" % (dump(msg_e) if msg_e is not None else "default"),
                    q.loc(fi, n))
     ck.floor("C02.5", 20)
